@@ -125,3 +125,26 @@ func init() {
 		externals[k] = v
 	}
 }
+
+func init() {
+	// xid: connection ids are opaque; a per-path counter keeps them distinct
+	externals["github.com/rs/xid.New"] = func(fr *frame, a []value) value {
+		n, _ := fr.i.side["xid"].(int)
+		n++
+		fr.i.side["xid"] = n
+		id := make(array, 12)
+		for k := range id {
+			id[k] = uint8(0)
+		}
+		id[11] = uint8(n)
+		return id
+	}
+	externals["(github.com/rs/xid.ID).String"] = func(fr *frame, a []value) value {
+		id := a[0].(array)
+		return fmt.Sprintf("xid%017d", id[11].(uint8))
+	}
+	externals["time.Now"] = func(fr *frame, a []value) value {
+		pkg := fr.i.prog.ImportedPackage("time")
+		return zero(pkg.Type("Time").Object().Type())
+	}
+}
